@@ -133,6 +133,10 @@ def run(chk: Check) -> None:
             except Exception as e:
                 why = f"re-parse failed: {e}"
         if why:
+            import c01
+            if not c01.structure_preserved(doc, o["width"], o["semantic"]):
+                chk.hist("skipped", "formatting without the option already changes the structure (C01 finding)")
+                continue
             nbd += 1
             chk.fail("property", {"doc": doc, "opts": o, "off": off, "on": on}, "smartquotes on vs off: " + why, classify)
         if i < 2:
